@@ -15,7 +15,7 @@ from ..vlib import build, tlc, util
 from ..vlib.report import MachineryError, Report
 
 util.ensure_repo_importable()
-from strengths import (RDGridSpace, RDNetwork, RDScript, RDSystem, Reaction, Species, UnitArray)  # noqa: E402
+from strengths import (RDGridSpace, RDNetwork, RDScript, RDSystem, Reaction, Species, UnitArray, UnitValue, UnitsSystem)  # noqa: E402
 from strengths.coarsegrain import grid_to_graph  # noqa: E402
 
 PROP = "C14"
@@ -37,7 +37,7 @@ def mk_system(ncells, space, state):
 
 
 def _job(args):
-    kind, space, mode, ncells, state, seed = args
+    kind, space, mode, ncells, state, seed, usys = args
     r, w = os.pipe()
     pid = os.fork()
     if pid == 0:
@@ -46,7 +46,11 @@ def _job(args):
             system = mk_system(ncells, space, state)
             outs = []
             for rep_i in range(2):
-                script = RDScript(system=system, t_sample=[0.0, 1.0], time_step=0.5, rng_seed=seed, init_state_processing=mode)
+                kw = {}
+                if usys:        # the script (= output) units: the stochastic engines still work in molecules internally
+                    kw["units_system"] = UnitsSystem(space=usys[0], time=usys[1], quantity=usys[2])
+                script = RDScript(system=system, t_sample=[UnitValue(0.0, "s"), UnitValue(1.0, "s")], time_step=UnitValue(0.5, "s"),
+                                  rng_seed=seed, init_state_processing=mode, **kw)
                 eng = build.make_engine(kind, lib=_lib)
                 eng.setup(script)
                 x0 = engine_rec.raw_state(_lib, 2 * ncells)
@@ -67,6 +71,16 @@ def _job(args):
     if os.WIFSIGNALED(status) or not data:
         return ("crash",)
     return pickle.loads(data)
+
+
+USYS = [("µm", "s", "nmol"), ("nm", "ms", "mol"), ("mm", "min", "µmol"), ("µm", "s", "kmol")]
+
+
+def _usys(kind, k):
+    """every third stochastic job runs under a script whose quantity unit is not the molecule"""
+    if kind == "euler" or k % 3 != 1:
+        return None
+    return USYS[(k // 3) % len(USYS)]
 
 
 def effective(mode, kind):
@@ -114,7 +128,7 @@ def run(tier, selftest=False, only=None):
             for space in ("grid", "graph"):
                 for mode in MODES:
                     for sd in range(nseeds):
-                        jobs.append((kind, space, mode, n, st, seed * 1000 + sd))
+                        jobs.append((kind, space, mode, n, st, seed * 1000 + sd, _usys(kind, len(jobs))))
     # sparse species over many cells: the correction loop of the redistribution keeps hitting cells whose draw was 0
     sparse_seeds = 40 if tier == "quick" else 400
     for n in (5, 6, 8):
@@ -123,7 +137,7 @@ def run(tier, selftest=False, only=None):
             for kind in ("tauleap", "gillespie"):
                 for space in ("grid", "graph"):
                     for sd in range(sparse_seeds):
-                        jobs.append((kind, space, "redist" if sd % 2 else "auto", n, st, seed * 7000 + sd))
+                        jobs.append((kind, space, "redist" if sd % 2 else "auto", n, st, seed * 7000 + sd, _usys(kind, len(jobs))))
     build.build_engine("plain")
     ctx = mp.get_context("fork")
     with ctx.Pool(util.NCPU, initializer=_init) as pool:
@@ -131,8 +145,8 @@ def run(tier, selftest=False, only=None):
     cases = []
     pois = {}
     for idx, (job, out) in enumerate(zip(jobs, res)):
-        kind, space, mode, n, st, sd = job
-        tag = {"engine": kind, "space": space, "mode": mode, "state": st, "seed": sd}
+        kind, space, mode, n, st, sd, usys = job
+        tag = {"engine": kind, "space": space, "mode": mode, "state": st, "seed": sd, "script_units": usys}
         rep.case(list(job))
         if out[0] != "ok":
             rep.violation("run", "init:%s:%s" % (out[0], effective(mode, kind)), dict(tag, info=list(out)))
